@@ -43,6 +43,7 @@ class FnSpec:
         self.srcline = 0
         self.opaque_body = None   # replace body entirely (only for trusted fns)
         self.overflow_tags = None
+        self.nobroadcast = False
 
 
 class ModSpec:
@@ -147,6 +148,8 @@ def parse_vspec(path, name):
             cur_fn.attrs.append(arg)
         elif d == 'tags':
             cur_fn.tags = arg.split()
+        elif d == 'nobroadcast':
+            cur_fn.nobroadcast = True
         elif d == 'overflow':
             cur_fn.overflow_tags = arg.split()
         elif d == 'top':
@@ -869,7 +872,8 @@ class Splicer:
         if mut_self:
             body = rename_self(body)
         body = apply_hints(body, spec, fq)
-        body = rewrite_loops(body, spec, fq, out, ms.broadcast)
+        bc = None if spec.nobroadcast else ms.broadcast
+        body = rewrite_loops(body, spec, fq, out, bc)
         body = re.sub(r'@@LOOP\d+@@', '', body)
         # drop cfg(target_pointer_width) arms other than 64 (statement attributes)
         body = re.sub(r'#\[cfg\(target_pointer_width\s*=\s*"(16|32)"\)\]\s*[^;]*;', '', body)
@@ -877,8 +881,8 @@ class Splicer:
         top = []
         if mut_self:
             top.append('let mut __self = self;')
-        if ms.broadcast:
-            top.append('broadcast use {%s};' % ms.broadcast)
+        if bc:
+            top.append('broadcast use {%s};' % bc)
         top.extend(spec.top)
         if top:
             body = '{\n' + '\n'.join(top) + body[1:]
